@@ -113,7 +113,7 @@ def main(argv=None):
         if runner:
             if violations or inconclusive:
                 # keep logs of problem runs for inspection
-                keepdir = vcore.VERIF / "logs" / pid
+                keepdir = vcore._OUT / "logs" / pid
                 keepdir.mkdir(parents=True, exist_ok=True)
                 for r in results:
                     if r.status != "pass" and r.log_path and os.path.exists(r.log_path):
@@ -150,7 +150,7 @@ def main(argv=None):
 
 
 def save_replay(pid, r: Result, rep: dict, tier, seed) -> str:
-    vcore.REPLAYS.mkdir(exist_ok=True)
+    vcore.REPLAYS.mkdir(parents=True, exist_ok=True)
     q = r.query
     n = 0
     while (vcore.REPLAYS / f"{pid}-{n}.json").exists():
@@ -170,7 +170,7 @@ def save_replay(pid, r: Result, rep: dict, tier, seed) -> str:
 
 
 def save_replay_m(pid, name, payload, tier, seed) -> str:
-    vcore.REPLAYS.mkdir(exist_ok=True)
+    vcore.REPLAYS.mkdir(parents=True, exist_ok=True)
     n = 0
     while (vcore.REPLAYS / f"{pid}-{n}.json").exists():
         n += 1
